@@ -151,6 +151,9 @@ class Contract:
     touches: list[str] = field(default_factory=list)   # message parameters the callee writes into (presence propagates)
     case_split: Callable[[Any], dict[str, Any]] | None = None   # call sites fork on these (exhaustive) cases: keeps queries small
     shards: int = 1       # discharge this function's obligations in that many worker processes
+    advances: dict[str, int] = field(default_factory=dict)           # iterator parameter -> items consumed on normal return
+    tag_suffix: dict[str, list[str]] = field(default_factory=dict)   # ensures-label suffix -> properties
+    ghost_enter: Callable[[Any], None] | None = None                  # ghost prologue (body verification only)
 
 
 class Registry:
@@ -206,6 +209,9 @@ def contract(key: str, serves: list[str] | None = None, trusted: bool = False, i
             touches=list(cls.__dict__.get("touches", [])),
             case_split=_fn(cls, "case_split"),
             shards=int(cls.__dict__.get("shards", 1)),
+            advances=dict(cls.__dict__.get("advances", {})),
+            tag_suffix=dict(cls.__dict__.get("tag_suffix", {})),
+            ghost_enter=_fn(cls, "ghost_enter"),
         )
         c.virtual = bool(cls.__dict__.get("virtual", False))
         REGISTRY.add(c)
